@@ -34,6 +34,8 @@ type caseOut struct {
 	BlockedLast bool       `json:"blocked_last"`
 	Pre         string     `json:"pre,omitempty"`          // program run first on the same Runner, own live context
 	ExecKillMs  *int       `json:"exec_kill_ms,omitempty"` // real external children via DefaultExecHandler(ms)
+	Lang        string     `json:"lang,omitempty"`
+	Files       []string   `json:"files,omitempty"` // names of the scratch files the program runs
 	Go          hxc26.Resp `json:"go"`
 }
 
@@ -43,7 +45,7 @@ func lastIsBlocking(stmts []*syntax.Stmt, funcs map[string]*syntax.Stmt, depth i
 		return false
 	}
 	st := stmts[len(stmts)-1]
-	if st.Background {
+	if st.Background || st.Disown {
 		return false
 	}
 	switch c := st.Cmd.(type) {
@@ -75,8 +77,14 @@ func lastIsBlocking(stmts []*syntax.Stmt, funcs map[string]*syntax.Stmt, depth i
 	return false
 }
 
-func blockedLast(src string) bool {
-	f, err := syntax.NewParser(syntax.Variant(syntax.LangBash)).Parse(strings.NewReader(src), "")
+func blockedLast(src string) bool { return blockedLastLang(src, "") }
+
+func blockedLastLang(src, lang string) bool {
+	variant := syntax.LangBash
+	if lang == "zsh" {
+		variant = syntax.LangZsh
+	}
+	f, err := syntax.NewParser(syntax.Variant(variant)).Parse(strings.NewReader(src), "")
 	if err != nil {
 		return false
 	}
@@ -97,6 +105,8 @@ type tmpl struct {
 	src   string
 	stdin string
 	class string // known-finding class, "" if Run is expected to return
+	lang  string // "" bash, "zsh"
+	files map[string]string
 }
 
 var bases = []tmpl{
@@ -134,11 +144,17 @@ var bases = []tmpl{
 	{kind: "procsubst_never_read_loop_then_wait", src: ": <(while :; do :; done); wait", class: "procsubst_fifo_never_opened_then_wait"},
 	{kind: "procsubst_never_written_then_wait", src: ": >(read x); wait", class: "procsubst_fifo_never_opened_then_wait"},
 	{kind: "procsubst_never_read_no_wait", src: ": <(echo hi); while :; do :; done"},
+	// zsh: jobs disowned at once with &! and &| (parsed with LangZsh)
+	{kind: "zsh_disown_loop_wait", lang: "zsh", src: "{ while :; do echo x; done; } &! wait"},
+	{kind: "zsh_disown_pipe_loop_wait", lang: "zsh", src: "while :; do :; done &| wait"},
+	{kind: "zsh_disown_writer_main_loop", lang: "zsh", src: "{ while :; do echo y; done; } &! while :; do :; done"},
+	{kind: "zsh_disown_two_jobs", lang: "zsh", src: "until false; do echo a; done &| { while :; do echo b; done; } &! wait"},
+	{kind: "bg_writer_main_loop", src: "{ while :; do echo y; done; } & while :; do :; done"},
 }
 
 // wrap nests a base program into more control flow (the unwinding has to pass through it)
 func wrap(r *rand.Rand, t tmpl) tmpl {
-	if strings.Contains(t.src, "\n") || t.class != "" {
+	if strings.Contains(t.src, "\n") || t.class != "" || t.lang != "" {
 		return t
 	}
 	for n := r.IntN(3); n > 0; n-- {
@@ -175,7 +191,23 @@ var execBases = []tmpl{
 	// the child forks a grandchild that inherits the (non-file) stdout and survives the killed child
 	{kind: "exec_grandchild_holds_pipe", src: `/bin/sh -c 'trap "" INT; sleep 30; :'`},
 	{kind: "exec_grandchild_holds_pipe_in_subst", src: `x=$(/bin/sh -c 'trap "" INT; sleep 30; :'); echo $x`},
+	// an executable script WITHOUT a #! line: the exec handler runs it with a nested interpreter (ENOEXEC),
+	// which must use the same kill timeout for the child it starts
+	{kind: "exec_sleep_ignores_int_via_noshebang", src: "./noshebang.sh", files: noShebang},
+	{kind: "exec_sleep_ignores_int_via_noshebang_bg_wait", src: "./noshebang.sh & wait", files: noShebang},
+	{kind: "exec_sleep_ignores_int_via_noshebang_in_subst", src: "x=$(./noshebang.sh); echo $x", files: noShebang},
 }
+
+var noShebang = map[string]string{"noshebang.sh": "/bin/sh -c 'trap \"\" INT; exec sleep 30'\n"}
+
+func fileNames(m map[string]string) []string {
+	var l []string
+	for k := range m {
+		l = append(l, k)
+	}
+	return l
+}
+
 var execKillMs = []int{-1, 0, 150, 2000}
 
 // preludes: a first program run on the same Runner with another, still alive, context
@@ -199,22 +231,22 @@ func main() {
 		var reqs []hxc26.Req
 		addExec := func(t tmpl, ms int, kill int) {
 			k := kill
-			cases = append(cases, caseOut{Src: t.src, Kind: t.kind, CancelMs: ms, ExecKillMs: &k, BlockedLast: blockedLast(t.src)})
+			cases = append(cases, caseOut{Src: t.src, Kind: t.kind, CancelMs: ms, ExecKillMs: &k, BlockedLast: blockedLast(t.src), Files: fileNames(t.files)})
 			extra := 0
 			if kill > 0 {
 				extra = kill
 			}
-			reqs = append(reqs, hxc26.Req{Src: t.src, CancelMs: ms, TimeoutMs: ms + 60000, HardMs: ms + extra + 6500, ExecKillMs: &k})
+			reqs = append(reqs, hxc26.Req{Src: t.src, CancelMs: ms, TimeoutMs: ms + 60000, HardMs: ms + extra + 6500, ExecKillMs: &k, Files: t.files})
 		}
 		addPre := func(t tmpl, ms int, pre string) {
-			cases = append(cases, caseOut{Src: t.src, Kind: t.kind + "+reuse", Class: t.class, CancelMs: ms, Stdin: t.stdin, BlockedLast: blockedLast(t.src), Pre: pre})
-			reqs = append(reqs, hxc26.Req{Src: t.src, CancelMs: ms, TimeoutMs: ms + 60000, HardMs: ms + 6500, Stdin: t.stdin, Pre: pre})
+			cases = append(cases, caseOut{Src: t.src, Kind: t.kind + "+reuse", Class: t.class, CancelMs: ms, Stdin: t.stdin, BlockedLast: blockedLastLang(t.src, t.lang), Pre: pre, Lang: t.lang})
+			reqs = append(reqs, hxc26.Req{Src: t.src, CancelMs: ms, TimeoutMs: ms + 60000, HardMs: ms + 6500, Stdin: t.stdin, Pre: pre, Lang: t.lang, CheckLate: strings.Contains(t.src, "&")})
 		}
 		add := func(t tmpl, ms int) {
-			cases = append(cases, caseOut{Src: t.src, Kind: t.kind, Class: t.class, CancelMs: ms, Stdin: t.stdin, BlockedLast: blockedLast(t.src)})
+			cases = append(cases, caseOut{Src: t.src, Kind: t.kind, Class: t.class, CancelMs: ms, Stdin: t.stdin, BlockedLast: blockedLastLang(t.src, t.lang), Lang: t.lang})
 			// the context deadline is far behind the cancellation; the worker's watchdog fires
 			// 6.5 s after the cancellation (kill timeout 2 s + margin 2 s + 2.5 s): still running = hang
-			reqs = append(reqs, hxc26.Req{Src: t.src, CancelMs: ms, TimeoutMs: ms + 60000, HardMs: ms + 6500, Stdin: t.stdin})
+			reqs = append(reqs, hxc26.Req{Src: t.src, CancelMs: ms, TimeoutMs: ms + 60000, HardMs: ms + 6500, Stdin: t.stdin, Lang: t.lang, CheckLate: strings.Contains(t.src, "&")})
 		}
 		// every base once (rotating cancellation time), then random wrapped ones
 		for i, t := range bases {
@@ -232,7 +264,7 @@ func main() {
 		for i, t := range execBases {
 			for j, k := range execKillMs {
 				// a child that only SIGKILL ends meets every kill timeout on every seed; the others rotate
-				if strings.HasPrefix(t.kind, "exec_sleep_ignores_int") || (i+j+int(o.Seed))%2 == 0 || o.N > 200 {
+				if (strings.HasPrefix(t.kind, "exec_sleep_ignores_int") && (t.files == nil || k == 150 || k == 2000)) || (t.files == nil && (i+j+int(o.Seed))%2 == 0) || o.N > 200 {
 					addExec(t, 150+50*((i+j)%3), k)
 				}
 			}
@@ -248,7 +280,7 @@ func main() {
 		resps := hxc26.Pool{N: 8}.RunAll(reqs)
 		// a slow return under load is not a verdict: re-run alone before it counts
 		for i, rp := range resps {
-			if !rp.Hang && rp.Cancelled && rp.LatencyUs > 1500000 {
+			if !rp.Hang && rp.Cancelled && rp.LatencyUs > 600000 {
 				again := hxc26.Pool{N: 1}.RunAll(reqs[i : i+1])[0]
 				if !again.Hang && again.LatencyUs < rp.LatencyUs {
 					resps[i] = again
